@@ -39,6 +39,8 @@ pub trait Family: 'static + Sized + Send + Sync {
     fn header_new(parts: (u8, bool, u8, bool, u32)) -> Option<Self::Header>;
     /// type number (specification) of `Packet::get_type()`
     fn packet_type_num(p: &Self::Packet) -> u8;
+    /// a clone of the packet (sharing its allocations) with one thing changed; None if this packet has nothing to change
+    fn derive(p: &Self::Packet, t: &mut Tape) -> Option<Self::Packet>;
     fn is_eof(e: &Self::Error) -> bool;
     fn common(e: &Self::Error) -> Option<&mqtt_proto::Error>;
     /// the error this family wraps a common error in
@@ -240,6 +242,26 @@ impl Family for V3 {
     fn packet_type_num(p: &Self::Packet) -> u8 {
         v3_type_num(p.get_type())
     }
+    fn derive(p: &Self::Packet, t: &mut Tape) -> Option<Self::Packet> {
+        let mut q = p.clone();
+        match &mut q {
+            v3::Packet::Publish(pb) => match t.pick(3) {
+                0 => pb.retain = !pb.retain,
+                1 => pb.dup = !pb.dup && pb.qos_pid != mqtt_proto::QosPid::Level0,
+                _ => {
+                    pb.qos_pid = match pb.qos_pid {
+                        mqtt_proto::QosPid::Level0 => mqtt_proto::QosPid::Level1(gen::gen_pid(t)),
+                        mqtt_proto::QosPid::Level1(x) => mqtt_proto::QosPid::Level2(x),
+                        mqtt_proto::QosPid::Level2(x) => mqtt_proto::QosPid::Level1(x + 1),
+                    }
+                }
+            },
+            v3::Packet::Connect(c) => c.keep_alive = c.keep_alive.wrapping_add(1),
+            v3::Packet::Puback(x) | v3::Packet::Pubrec(x) | v3::Packet::Pubrel(x) | v3::Packet::Pubcomp(x) | v3::Packet::Unsuback(x) => *x = *x + 1,
+            _ => return None,
+        }
+        Some(q)
+    }
     fn is_eof(e: &Self::Error) -> bool {
         e.is_eof()
     }
@@ -382,6 +404,32 @@ impl Family for V5 {
     }
     fn packet_type_num(p: &Self::Packet) -> u8 {
         project::packet_type_num(p.get_type())
+    }
+    fn derive(p: &Self::Packet, t: &mut Tape) -> Option<Self::Packet> {
+        let mut q = p.clone();
+        match &mut q {
+            v5::Packet::Publish(pb) => match t.pick(6) {
+                0 => pb.properties.topic_alias = Some(pb.properties.topic_alias.map(|x| x.wrapping_add(1)).unwrap_or(3)),
+                1 => pb.properties.subscription_id = std::convert::TryFrom::try_from(t.pick(1000) as u32 + 1).ok(),
+                2 => pb.properties.user_properties.push(v5::UserProperty { name: std::sync::Arc::new("to".to_string()), value: std::sync::Arc::new(format!("sub-{}", t.pick(9))) }),
+                3 => pb.properties.message_expiry_interval = Some(t.pick(100) as u32),
+                4 => pb.retain = !pb.retain,
+                _ => {
+                    pb.properties.user_properties.pop();
+                    pb.properties.content_type = None;
+                }
+            },
+            v5::Packet::Connect(c) => c.keep_alive = c.keep_alive.wrapping_add(1),
+            v5::Packet::Puback(a) => a.pid = a.pid + 1,
+            v5::Packet::Disconnect(d) => d.properties.user_properties.push(v5::UserProperty { name: std::sync::Arc::new("k".to_string()), value: std::sync::Arc::new("v".to_string()) }),
+            _ => {
+                gen::user_props_mut(&mut q)?.push(v5::UserProperty { name: std::sync::Arc::new("k".to_string()), value: std::sync::Arc::new("v".to_string()) });
+            }
+        }
+        if q == *p {
+            return None;
+        }
+        Some(q)
     }
     fn is_eof(e: &Self::Error) -> bool {
         e.is_eof()
